@@ -96,7 +96,8 @@ def assign_case(draw, multi_lag=False, methods=ALL_METHODS, max_core=6, min_core
     trim = draw(st.booleans())
     sliding = draw(st.booleans())
     if multi_lag:
-        lags = sorted(draw(st.lists(st.integers(1, min(4, max_lag)), min_size=1, max_size=3, unique=True)))
+        # any order: a descending scan, a coarse scan followed by a refinement ... row i belongs to lag_times[i]
+        lags = draw(st.lists(st.integers(1, min(4, max_lag)), min_size=1, max_size=3, unique=True))
     else:
         lags = [draw(st.integers(1, max_lag))]
     kmax = min(4, max_core) if method.endswith("mle") else max_core
@@ -713,7 +714,8 @@ def propagate_case(draw):
     return {"family": fam, "W": W, "p0": p0, "n_steps": n_steps,
             "fmt": draw(st.sampled_from(FORMATS)), "observable": obs,
             # initial probabilities may arrive as a float64 vector, an integer one-hot vector or float32
-            "p0_kind": draw(st.sampled_from(["float64", "float64", "int_onehot", "float32"])),
+            # ... or as un-normalised occupation numbers (head counts): propagation is linear
+            "p0_kind": draw(st.sampled_from(["float64", "float64", "int_onehot", "float32", "counts", "counts"])),
             "hot": draw(st.integers(0, n - 1))}
 
 
@@ -731,6 +733,8 @@ def run_propagate(case):
     elif kind == "float32":
         p0 = p0.astype(np.float32)
         TSK = 1e6            # single-precision input: rows are compared to 1e-6
+    elif kind == "counts":
+        p0 = np.array(case["p0"], dtype=float) * 3.0
     p0c = p0.copy()
     ns = case["n_steps"]
     obs = None if case["observable"] is None else np.array(case["observable"], dtype=float)
@@ -754,9 +758,12 @@ def run_propagate(case):
     require(series.shape == want.shape, "time series has the wrong shape", got=series.shape, want=want.shape)
     require(np.max(np.abs(series - want)) <= 1e-12 * TS * TSK * max(1.0, float(np.max(np.abs(want)))),
             "ensemble at step k is not p0 T^k", maxdiff=float(np.max(np.abs(series - want))))
-    require(pf.shape == (n,) and np.max(np.abs(pf - rows[-1])) <= 1e-12 * TS * TSK, "final populations are not p0 T^(n_steps-1)",
+    require(pf.shape == (n,) and np.max(np.abs(pf - rows[-1])) <= 1e-12 * TS * TSK * max(1.0, float(np.max(np.abs(rows[-1])))),
+            "final populations are not p0 T^(n_steps-1)",
             got=pf.tolist(), want=rows[-1].tolist())
-    require(abs(pf.sum() - 1) <= 1e-12 * TS * TSK, "populations no longer sum to one")
+    tot = float(p0c.astype(np.float64).sum())
+    require(abs(pf.sum() - tot) <= 1e-12 * TS * TSK * max(1.0, tot), "the ensemble's total weight is not conserved",
+            got=float(pf.sum()), want=tot)
     cl = ["p0_kind=" + kind, "family=" + case["family"], "fmt=" + case["fmt"], "observable=%s" % (obs is not None),
           "n_steps=%s" % ("1" if ns == 1 else "2" if ns == 2 else ">=3"), "n=%s" % ("1" if n == 1 else ">=2")]
     return Info(n >= 2 and ns >= 3, cl)
